@@ -1,10 +1,22 @@
 import CsVerif.Model.C15
+import CsVerif.Model.C15Gen
+import CsVerif.Model.PyUShow
 /-! Line-protocol driver for the C15 model.
 
   find   <hay> <needle> <start:int>                                  → int          (bytes.find)
   needle <b|f> <B> <hay> <needle> <start|none> <maxOff> <initpos>    → ok l<offsets> <final tell> | exc <E>
   art    <b|f> <hay> <start|none> <maxrange|none> <initpos>          → ok <n> (<off> <size> <key> <hints> <payload>)* <final tell> | exc <E>
   occ    <hay> <needle>                                              → l<offsets>   (the specification `occ`)
+`g-*` streams — the definitions TRANSLATED from the source of the two functions (Gen/PyScan.lean), run with the fuel
+`C15Gen.fuelFor` (= len(file) + 3):
+  gneedle / gart  <same operands as needle / art>                    → same format (a value of an unexpected shape: `?…`)
+  gargn <bufsize:V> <file:V> <needle:V> <start:V> <max:V>            → ok <list:V> <final tell> | exc <E>      (arguments of any kind,
+  garga <file:V> <start:V> <maxrange:V>                              → ok <list:V> <final tell> | exc <E>       notation of PyUShow;
+                                                                       a file object is `I9000[b<data>;i<pos>;i<kind>]`)
+`pyu` stream — the operations of Model/PyU_T15.lean on operands of all kinds:
+  pyu fread <file:V> <n:V> | pyu fseek <file:V> <off:V> <whence:V>   → ok <result:V> <tell> | exc <E>
+  pyu ftell <file:V> | pyu find <x:V> <sub:V> <start:V>              → ok <result:V> | exc <E>
+  pyu range <n:V> | pyu max <a:V> <b:V> | pyu xor <data:V> <key:V>   → ok <result:V> | exc <E>   (`list(range(n))`, `max(a, b)`, `utils.xor`)
 -/
 namespace C15
 open Proto
@@ -19,6 +31,111 @@ def showNeedle (r : List Int × PyFile) : String := s!"{showInts r.1} {r.2.tell}
 
 def showArt (r : List Hit × PyFile) : String :=
   " ".intercalate ([toString r.1.length] ++ r.1.map showHit ++ [toString r.2.tell])
+
+/-! ### `g-*` streams: the translated definitions -/
+
+def vInts? : PyU.V → Option (List Int)
+  | .list xs => xs.mapM fun x => match x with | .int n => some n | _ => none
+  | _ => none
+
+def vTell? (v : PyU.V) : Option Nat := (PyU.asFile v).map (·.2.1)
+
+def vNeedle (v : PyU.V) : String :=
+  match v with
+  | .tuple [l, f] =>
+    match vInts? l, vTell? f with
+    | some xs, some t => s!"{showInts xs} {t}"
+    | _, _ => "?needle"
+  | _ => "?needle"
+
+def vHit? : PyU.V → Option Hit
+  | .inst c [.int o, .int sz, .bytes k, .bytes h, .bytes p] =>
+    if c == Gen.PyScan.ArtifactKitPayload ∧ 0 ≤ o ∧ 0 ≤ sz then
+      some { offset := o.toNat, size := sz.toNat, xorkey := k, hints := h, payload := p }
+    else none
+  | _ => none
+
+def vArt (v : PyU.V) : String :=
+  match v with
+  | .tuple [.list hs, f] =>
+    match hs.mapM vHit?, vTell? f with
+    | some hits, some t => " ".intercalate ([toString hits.length] ++ hits.map showHit ++ [toString t])
+    | _, _ => "?art"
+  | _ => "?art"
+
+def clsOf (cid : Nat) : Option PyU.Cls :=
+  if cid == 9000 then some PyU.FileCls else if cid == 0 then some Gen.PyScan.ArtifactKitPayload else none
+
+def vTok (s : String) : Option PyU.V := PyU.vTok (fun _ => none) clsOf s
+
+/-- fuel for a run on arguments of any kind: `len(file) + 3` when the file argument is a file object -/
+def fuelOfV (f : PyU.V) : Nat :=
+  match PyU.asFile f with
+  | some (d, _, _) => d.length + 3
+  | none => 3
+
+/-- `ok <list of yields> <final tell>` -/
+def vGen (v : PyU.V) : String :=
+  match v with
+  | .tuple [l, f] =>
+    match vTell? f with
+    | some t => s!"{PyU.vShow l} {t}"
+    | none => "?gen"
+  | _ => "?gen"
+
+def vPair (r : PyU.V × PyU.V) : String :=
+  match vTell? r.2 with
+  | some t => s!"{PyU.vShow r.1} {t}"
+  | none => "?file"
+
+def gstep : List String → String
+  | ["gneedle", k, b, h, n, s, m, p] =>
+    match kindTok k, natTok b, bytesTok h, bytesTok n, optTok intTok s, natTok m, natTok p with
+    | some k, some b, some h, some n, some s, some m, some p =>
+      showPy vNeedle (C15Gen.iterFindNeedleG b { data := h, pos := p, kind := k } n s m)
+    | _, _, _, _, _, _, _ => "bad-op"
+  | ["gart", k, h, s, m, p] =>
+    match kindTok k, bytesTok h, optTok intTok s, optTok natTok m, natTok p with
+    | some k, some h, some s, some m, some p =>
+      showPy vArt (C15Gen.iterArtifactkitG { data := h, pos := p, kind := k } s m)
+    | _, _, _, _, _ => "bad-op"
+  | ["gargn", b, f, n, s, m] =>
+    match vTok b, vTok f, vTok n, vTok s, vTok m with
+    | some b, some f, some n, some s, some m => showPy vGen (Gen.PyScan.iter_find_needle b (fuelOfV f) f n s m)
+    | _, _, _, _, _ => "bad-op"
+  | ["garga", f, s, m] =>
+    match vTok f, vTok s, vTok m with
+    | some f, some s, some m => showPy vGen (Gen.PyScan.iter_artifactkit_payloads (fuelOfV f) f s m)
+    | _, _, _ => "bad-op"
+  | ["pyu", "fread", f, n] =>
+    match vTok f, vTok n with
+    | some f, some n => showPy vPair (PyU.fileRead f n)
+    | _, _ => "bad-op"
+  | ["pyu", "fseek", f, o, w] =>
+    match vTok f, vTok o, vTok w with
+    | some f, some o, some w => showPy vPair (PyU.fileSeek f o w)
+    | _, _, _ => "bad-op"
+  | ["pyu", "ftell", f] =>
+    match vTok f with
+    | some f => showPy PyU.vShow (PyU.fileTell f)
+    | none => "bad-op"
+  | ["pyu", "range", n] =>
+    match vTok n with
+    | some n => showPy PyU.vShow (PyU.rangeV n)
+    | none => "bad-op"
+  | ["pyu", "max", a, b] =>
+    match vTok a, vTok b with
+    | some a, some b => showPy PyU.vShow (PyU.max2 a b)
+    | _, _ => "bad-op"
+  | ["pyu", "xor", a, b] =>
+    match vTok a, vTok b with
+    | some a, some b => showPy PyU.vShow (Gen.PyScan.xor a b)
+    | _, _ => "bad-op"
+  | ["pyu", "find", x, sub, st] =>
+    match vTok x, vTok sub, vTok st with
+    | some x, some sub, some st => showPy PyU.vShow (PyU.find x sub st)
+    | _, _, _ => "bad-op"
+  | _ => "bad-op"
 
 def step : List String → String
   | ["find", h, n, s] =>
@@ -39,6 +156,6 @@ def step : List String → String
     | some k, some h, some s, some m, some p =>
       showPy showArt (iterArtifactkit { data := h, pos := p, kind := k } s m)
     | _, _, _, _, _ => "bad-op"
-  | _ => "bad-op"
+  | ws => gstep ws
 
 end C15
